@@ -88,6 +88,43 @@ Definition lf_windows (ns W : Z) : option (list (Z * Z * Z * Z)) :=
   else None.
 
 (* ------------------------------------------------------------------ *)
+(* the general loop: init_params(nsamples=n) and _process_NP21(offset) *)
+(* ------------------------------------------------------------------ *)
+(* self.sr[first + offset : last + offset] on a file of nsf samples: NumPy
+   clips a slice to the array (offset >= 0): number of samples actually read *)
+Definition clip_len (nsf a b : Z) : Z := Z.max 0 (Z.min b nsf - Z.min a nsf).
+
+(* the loop body of _process_NP21 (first = first + offset; last = last + offset)
+   on a file of nsf samples; _process_NP24 is the case offset = 0.  The window
+   generator runs over n = self.nsamples (init_params(nsamples) or sr.ns). *)
+Definition lf_row_off (nsf off W nw iw : Z) (w : Z * Z) : option (Z * Z * Z * Z) :=
+  let '(first, last) := w in
+  let n := clip_len nsf (first + off) (last + off) in
+  if n <? taper then None
+  else let '(a, b) := ind2save W iw nw in
+       let '(a', b') := pyslice (ndec n) a b in
+       Some (first + off, first + off + n, a', b').
+
+Fixpoint lf_rows_from_off (nsf off W nw iw : Z) (l : list (Z * Z)) : option (list (Z * Z * Z * Z)) :=
+  match l with
+  | [] => Some []
+  | w :: t =>
+      match lf_row_off nsf off W nw iw w, lf_rows_from_off nsf off W nw (iw + 1) t with
+      | Some r, Some rs => Some (r :: rs)
+      | _, _ => None
+      end
+  end.
+
+(* a negative offset would index from the end of the file: outside the domain (None) *)
+Definition lf_windows_off (nsf off n W : Z) : option (list (Z * Z * Z * Z)) :=
+  if admissible W && (0 <=? off) then
+    match firstlast n W overlap with
+    | Some l => lf_rows_from_off nsf off W (nwin n W overlap) 0 l
+    | None => None
+    end
+  else None.
+
+(* ------------------------------------------------------------------ *)
 (* the LF stream: which AP sample every LF row is taken at             *)
 (* ------------------------------------------------------------------ *)
 Definition zrange2 (a b : Z) : list Z :=
@@ -110,6 +147,18 @@ Definition lf_positions (ns W : Z) : option (list Z) :=
 (* number of rows of the .lf.bin *)
 Definition lf_nsamples (ns W : Z) : option Z :=
   match lf_windows ns W with
+  | Some rs => Some (fold_right (fun r acc => row_count r + acc) 0 rs)
+  | None => None
+  end.
+
+Definition lf_positions_off (nsf off n W : Z) : option (list Z) :=
+  match lf_windows_off nsf off n W with
+  | Some rs => Some (flat_map row_positions rs)
+  | None => None
+  end.
+
+Definition lf_nsamples_off (nsf off n W : Z) : option Z :=
+  match lf_windows_off nsf off n W with
   | Some rs => Some (fold_right (fun r acc => row_count r + acc) 0 rs)
   | None => None
   end.
@@ -187,6 +236,22 @@ Definition rd_nsync (m : meta) : Z := sns2 m.
 Definition rd_open_ns (m : meta) (nbytes meta_ns : Z) : Z :=
   if rd_nc m * meta_ns * 2 =? nbytes then meta_ns else nbytes / (2 * rd_nc m).
 
+(* whether Reader.open takes the correction branch (logs "meta data and filesize do
+   not checkout ... will attempt to fudge" and replaces meta['fileTimeSecs'] in memory) *)
+Definition rd_fudged (m : meta) (nbytes meta_ns : Z) : bool :=
+  negb (rd_nc m * meta_ns * 2 =? nbytes).
+
+(* np.round / Python round of the exact quotient a/b (b > 0): half to even *)
+Definition round_half_even_div (a b : Z) : Z :=
+  let q := a / b in let r := a mod b in
+  if 2 * r <? b then q else if b <? 2 * r then q + 1 else if Z.even q then q else q + 1.
+
+(* the sample count the LF metadata itself announces, int(round(fileTimeSecs * imSampRate)),
+   for an AP recording of ns samples at the nominal 30 kHz: fileTimeSecs = ns/30000 is
+   copied unchanged, imSampRate becomes 2500 (exact arithmetic; the float evaluation
+   can differ only in the tie case ns mod 12 = 6) *)
+Definition meta_ns_nominal (ns : Z) : Z := round_half_even_div (ns * fs_lf) fs_ap.
+
 (* ------------------------------------------------------------------ *)
 (* everything observable for one conversion                            *)
 (* ------------------------------------------------------------------ *)
@@ -197,3 +262,34 @@ Definition lf_file (version : Z) (m : meta) (shanks : list Z) (nrows meta_ns sh 
   let nb := lf_nbytes nrows chns in
   let m' := write_lf_meta version m chns nb sh in
   (chns, m', nb, (rd_nc m', rd_fs m', rd_is_lf m', rd_nsync m', rd_open_ns m' nb meta_ns)).
+
+(* ------------------------------------------------------------------ *)
+(* values: the low-pass as an abstract operator on chunks              *)
+(* ------------------------------------------------------------------ *)
+(* extract_lfp on the chunk [a, b) of the trace x:
+     chunk[:, :taper] *= taper[:taper]; chunk[:, -taper:] *= taper[taper:]   -> tap a b x
+     scipy.signal.sosfiltfilt(sos_lp, chunk)                                 -> filt a b (tap a b x)
+   `filt a b y p` is the filtered value at absolute position p (a <= p < b) of
+   the chunk y[a:b]; it may depend on a and b (sosfiltfilt pads at the chunk
+   ends).  Both are external (SciPy): Section variables, hypotheses in Proofs.v. *)
+Section Values.
+  Variable V : Type.
+  Variable filt : Z -> Z -> (Z -> V) -> Z -> V.
+  Variable tap : Z -> Z -> (Z -> V) -> (Z -> V).
+
+  (* values written for one window (one channel): decimated column j is the
+     filtered tapered chunk at first + ratio*j *)
+  Definition row_values (x : Z -> V) (r : Z * Z * Z * Z) : list V :=
+    let '(first, last, a, b) := r in
+    map (fun j => filt first last (tap first last x) (first + ratio * j)) (zrange2 a b).
+
+  (* one channel of the .lf.bin before the division by the gain and rounding *)
+  Definition lf_values (x : Z -> V) (ns W : Z) : option (list V) :=
+    match lf_windows ns W with
+    | Some rs => Some (flat_map (row_values x) rs)
+    | None => None
+    end.
+
+  (* "zero-phase low-pass filtering of the whole AP trace followed by decimation by 12" *)
+  Definition whole_trace_lf (x : Z -> V) (ns m : Z) : V := filt 0 ns x (ratio * m).
+End Values.
